@@ -146,6 +146,10 @@ partial def parseItem : List String → Option (Prog × List String)
     let a ← parseBool a
     let (b, rest) ← parseBody rest
     pure (.fmt (.range off w) name a b, rest)
+  | "in" :: a :: rest => do
+    let a ← parseBool a
+    let (b, rest) ← parseBody rest
+    pure (.inl a b, rest)
   | "fb" :: n :: w :: a :: rest => do
     let name ← parseName n
     let w ← w.toNat?
